@@ -4,6 +4,7 @@ use indextree::{Arena, NodeId};
 use rayon::prelude::*;
 use std::collections::HashSet;
 use std::fmt;
+use std::fmt::Write as _;
 use std::sync::atomic::{AtomicU64, Ordering};
 
 /// renderings a payload can have ('a' is replaced per format mode so the four modes differ)
@@ -198,6 +199,22 @@ pub fn rstrip_lines(s: &str) -> String {
     s.split('\n').map(|l| l.trim_end_matches(' ')).collect::<Vec<_>>().join("\n")
 }
 
+/// a sink that refuses everything beyond its first `left` bytes
+pub struct Limited {
+    pub left: usize,
+}
+impl fmt::Write for Limited {
+    fn write_str(&mut self, s: &str) -> fmt::Result {
+        if s.len() > self.left {
+            self.left = 0;
+            Err(fmt::Error)
+        } else {
+            self.left -= s.len();
+            Ok(())
+        }
+    }
+}
+
 pub fn render_real(arena: &Arena<Txt>, id: NodeId, mode: usize) -> String {
     let p = id.debug_pretty_print(arena);
     match mode {
@@ -340,6 +357,22 @@ pub fn run_with(max_n: usize, full_n: usize, k: usize, spine_depth: usize) -> Pp
                         for start in 0..n {
                             for mode in 0..4 {
                                 let expected = reference(parent, start, assign, mode);
+                                // a print that was cut short (the sink refused more bytes) must not
+                                // influence the next print on the same thread
+                                if n <= 4 {
+                                    for cut in [2usize, 9, 17] {
+                                        let _ = crate::ops::guarded(|| {
+                                            let mut l = Limited { left: cut };
+                                            let pr = ids[start].debug_pretty_print(&arena);
+                                            let _ = match mode {
+                                                0 => write!(l, "{}", pr),
+                                                1 => write!(l, "{:#}", pr),
+                                                2 => write!(l, "{:?}", pr),
+                                                _ => write!(l, "{:#?}", pr),
+                                            };
+                                        });
+                                    }
+                                }
                                 let got = crate::ops::guarded(|| render_real(&arena, ids[start], mode));
                                 evals.fetch_add(1, Ordering::Relaxed);
                                 dig = dig.wrapping_add(crate::obs::hash64(&(parent, assign, start, mode, embedded, format!("{:?}", chunking), &got)));
